@@ -1,3 +1,39 @@
-From Verif Require Import Base Link.
-Theorem placeholder : True. Proof. exact I. Qed.
-Print Assumptions placeholder.
+(* C12 — closures live exactly as long as the call that passed them. *)
+From Verif Require Import Base Link LinkProofs Closure.
+
+(* every way a call leaves (normal return, error, cancel, link end, panic path) releases its closure *)
+Theorem closure_released_on_return :
+  forall s i v e, ~ In i (closures (caller_return s i v e)).
+Proof.
+  intros s i v e Hin. unfold caller_return, with_ev, setT, with_threads, with_closures in Hin. simpl in Hin.
+  unfold remove_nat in Hin. apply filter_In in Hin as [_ H]. rewrite Nat.eqb_refl in H. discriminate.
+Qed.
+Print Assumptions closure_released_on_return.
+
+Theorem closure_released_on_panic_path :
+  forall calls s i e, ~ In i (closures (caller_panic calls s i e)).
+Proof.
+  intros calls s i e Hin. unfold caller_panic, begin_seterr, wake, setT, do_close, with_threads, with_closures in Hin.
+  simpl in Hin. unfold remove_nat in Hin. apply filter_In in Hin as [_ H]. rewrite Nat.eqb_refl in H. discriminate.
+Qed.
+Print Assumptions closure_released_on_panic_path.
+
+(* releasing one call's closure leaves the registrations of the other calls alone *)
+Theorem release_is_local :
+  forall s i j v e, i <> j -> In j (closures s) -> In j (closures (caller_return s i v e)).
+Proof.
+  intros s i j v e Hne Hin. unfold caller_return; simpl. unfold remove_nat. apply filter_In. split; auto.
+  apply negb_true_iff. apply Nat.eqb_neq. auto.
+Qed.
+Print Assumptions release_is_local.
+
+(* after the release an invocation finds nothing and runs nothing *)
+Theorem late_invocation_rejected :
+  forall t id, call_closure (release t id) id = CDoesNotExist.
+Proof. intros t id. unfold call_closure, release. rewrite lookupN_removeN_same. reflexivity. Qed.
+Print Assumptions late_invocation_rejected.
+
+Theorem other_closures_stay_invocable :
+  forall t id id', id <> id' -> call_closure (release t id) id' = call_closure t id'.
+Proof. intros t id id' H. unfold call_closure, release. rewrite lookupN_removeN_other; auto. Qed.
+Print Assumptions other_closures_stay_invocable.
